@@ -719,4 +719,15 @@ def Op.target (H : Heap) : Op → Nat
   | .read a _ | .assign a _ _ _ | .append a _ _ | .setIdx a _ _ _ | .encode a | .mkbuf a => a
   | .scribble _ => H.insts.length     -- a buffer is nobody's: no instance may change
 
+/-! ### the history of Witness/C18.lean (printed by the driver for the harness from these very terms) -/
+
+/-- message 65 with a 2-byte int and an array of bytes -/
+def witnessSchema : Schema :=
+  ⟨[.binRec (some 65) [.int ⟨2, false, false⟩ none, .arr (.int ⟨1, false, false⟩) ⟨2, false, false⟩]]⟩
+
+/-- `items.append(7)` on the never-assigned array field of instance 0 -/
+def witnessBadOp : Op := .append 0 [.fld 1] (.int 7)
+
+def witnessOps : List Op := [.new 0, .new 0, witnessBadOp, .new 0]
+
 end NasdaqModel.Heap
